@@ -162,10 +162,9 @@ def gfinish (cfg : ICfg) : Nat → GState → GState
 def gfinishW (cfg : ICfg) : Nat → GState → GState
   | 0, s => s
   | f + 1, s =>
-    if gallFin cfg s then s else
-    match grunnable cfg s with
-    | [] => s
-    | R => gfinishW cfg f (gexec cfg R s)
+    if gallFin cfg s then s
+    else if (grunnable cfg s).isEmpty then s
+    else gfinishW cfg f (gexec cfg (grunnable cfg s) s)
 
 /-! ### the static reading -/
 
